@@ -254,6 +254,7 @@ func runC06(c *Ctx) {
 	clearResetParts(c, "R-C06-CLEAR", "cache", "evict")
 
 	// ---- R-C06-REFUSALS
+	evictClearRule(c, "R-C06-CLEAR")
 	addersRule(c, "R-C06-ARMS")
 	applierArmsRule(c, "R-C06-ARMS")
 	refusalsRule(c, "R-C06-REFUSALS")
